@@ -4,6 +4,7 @@ import (
 	"bytes"
 	"encoding/json"
 	"fmt"
+	"os"
 
 	"github.com/corestario/kyber/share"
 
@@ -202,6 +203,69 @@ func (ce *Ceremony) JudgeSignatures(c *Ctx, j *sigJudge, expected map[string]map
 					continue
 				}
 				j.observe("export:"+n.Name, want.Payload, ent.Signature, wit)
+			}
+		}
+		// (d) what the REST API serves for the round (operators read signatures there)
+		if n.API != nil {
+			served, err := n.API.Signatures(ce.Round)
+			if err != nil {
+				c.Violate("C01/api-does-not-serve-signatures", fmt.Sprintf("%s GET /getSignatures: %v", n.Name, err), wit)
+			}
+			nServed, nStored := 0, 0
+			for batch, msgs := range served {
+				for mid, entries := range msgs {
+					exp, ok := expected[batch][mid]
+					if !ok {
+						c.Violate("C01/served-for-unproposed-message", fmt.Sprintf("%s batch %s msg %s", n.Name, batch, mid), wit)
+						continue
+					}
+					for _, e := range entries {
+						nServed++
+						j.observe("api:"+n.Name, exp.Payload, e.Signature, wit)
+					}
+				}
+			}
+			for _, msgs := range store {
+				for _, entries := range msgs {
+					nStored += len(entries)
+				}
+			}
+			if err == nil && nServed != nStored {
+				c.Violate("C01/api-serves-other-entries-than-stored", fmt.Sprintf("%s: %d entries served, %d stored", n.Name, nServed, nStored), wit)
+			}
+			c.Add("signature_entries_read_through_the_rest_api", nServed)
+		}
+		// (e) the dump `dc4bc_cli export_signatures` writes (operators publish from it)
+		if n.CLI != nil {
+			path, err := n.CLI.ExportSignatures(ce.Round)
+			if err != nil {
+				c.Violate("C01/export-tool-fails", fmt.Sprintf("%s: %v", n.Name, err), wit)
+			} else if path != "" {
+				bz, _ := os.ReadFile(path)
+				var dump map[string]struct {
+					Payload   []byte `json:"payload_base64"`
+					Signature []byte `json:"signature"`
+					File      string `json:"file"`
+				}
+				if err := json.Unmarshal(bz, &dump); err != nil {
+					c.Violate("C01/export-tool-wrote-unparsable-file", fmt.Sprintf("%s %s: %v", n.Name, path, err), wit)
+				} else {
+					c.Add("signature_dumps_written_by_the_cli_tool", 1)
+					for mid, e := range dump {
+						known := false
+						for _, msgs := range expected {
+							if exp, ok := msgs[mid]; ok && bytes.Equal(exp.Payload, e.Payload) {
+								known = true
+							}
+						}
+						if !known {
+							c.Violate("C01/export-tool-entry-for-unproposed-message", fmt.Sprintf("%s: id %q with a payload nobody proposed under that id", n.Name, mid), wit)
+							continue
+						}
+						j.observe("cli-export:"+n.Name, e.Payload, e.Signature, wit)
+						c.Add("entries_in_cli_dumps_judged", 1)
+					}
+				}
 			}
 		}
 		for batch := range complete {
